@@ -19,7 +19,7 @@ def readline(prompt: str = '') -> str:
 
 	input_filepath = os.path.join(tranp_dir(), 'bin/_input.sh')
 	res = subprocess.run(['bash', input_filepath], stdout=subprocess.PIPE)
-	return res.stdout.decode('utf-8').rstrip()
+	return res.stdout.decode('utf-8', errors='replace').rstrip()
 
 
 def tty(prompt: str = '') -> list[str]:
